@@ -2,17 +2,20 @@ package main
 
 // C19: constants cannot be changed by any path.
 // Correspondence: sequences of mutation attempts of every syntactic kind (=, :=, ++/--, index assignment, del of an
-// element, loop variable, parameter name, nested functions and loops, explicit del) on constants holding each value
-// type (incl. arrays > 8 and maps > 4), run as grol source on a persistent eval.State through repl.EvalOne, once with
-// registers and once without; outcome (error / result) of every attempt and the top-level value of every tracked
-// name after it are compared with coq/model/ConstEnv.v.
-// Direct oracle (model-free): after each attempt without an intervening del of the name, the rendering of a
-// constant - read at top level and from inside a function - equals its first rendering, and both register modes
-// agree on error / non-error and on the result.
+// element, loop variable, parameter name, nested functions and loops, explicit del; re-assignment of a value that is
+// == but not identical; mutation through ALIASES of the constant's value) on constants holding each value type (incl.
+// arrays > 8 and maps > 4), run as grol source on a persistent eval.State through repl.EvalOne, once with registers
+// and once without; the outcome of every attempt and the EXACT value of every tracked name after it are compared
+// with coq/model/ConstEnv.v.
+// Direct oracle (model-free): after each attempt without an intervening del of the name, the exact rendering of a
+// constant (floats written with a fraction, so 1 and 1.0, 0.0 and -0.0 differ; keys included) - read at top level
+// and from inside a function - equals its first exact rendering, and both register modes agree.
 
 import (
 	"context"
 	"fmt"
+	"math"
+	"sort"
 	"strconv"
 	"strings"
 
@@ -27,67 +30,26 @@ import (
 
 func main() { common.Main("C19", runC19) }
 
-// ---- values
-type pval struct {
-	kind byte // i n a m
-	n    int64
-	els  []pval
-	keys []int64
-}
-
-func (p pval) enc() string {
-	switch p.kind {
-	case 'i':
-		return "i" + strconv.FormatInt(p.n, 10)
-	case 'n':
-		return "n"
-	case 'a':
-		parts := []string{"a" + strconv.Itoa(len(p.els))}
-		for _, e := range p.els {
-			parts = append(parts, e.enc())
-		}
-		return strings.Join(parts, ".")
-	default:
-		parts := []string{"m" + strconv.Itoa(len(p.els))}
-		for i, e := range p.els {
-			parts = append(parts, strconv.FormatInt(p.keys[i], 10), e.enc())
-		}
-		return strings.Join(parts, ".")
-	}
-}
-func (p pval) src() string {
-	switch p.kind {
-	case 'i':
-		return strconv.FormatInt(p.n, 10)
-	case 'n':
-		return "nil"
-	case 'a':
-		parts := make([]string, len(p.els))
-		for i, e := range p.els {
-			parts[i] = e.src()
-		}
-		return "[" + strings.Join(parts, ",") + "]"
-	default:
-		parts := make([]string, len(p.els))
-		for i, e := range p.els {
-			parts[i] = strconv.FormatInt(p.keys[i], 10) + ":" + e.src()
-		}
-		return "{" + strings.Join(parts, ",") + "}"
-	}
-}
-
-type cval struct {
-	kind byte // p s b f
-	p    pval
+// ---- values: i int, f float (q/4), z -0.0, n nil, s string, b bool, a array, m map (keys: i f z s values)
+type val struct {
+	kind byte
+	n    int64 // i: the integer; f: q
 	s    string
 	b    bool
-	q    int64
+	els  []val
+	keys []val
 }
 
-func (v cval) enc() string {
+func (v val) enc() string {
 	switch v.kind {
-	case 'p':
-		return v.p.enc()
+	case 'i':
+		return "i" + strconv.FormatInt(v.n, 10)
+	case 'f':
+		return "f" + strconv.FormatInt(v.n, 10)
+	case 'z':
+		return "z"
+	case 'n':
+		return "n"
 	case 's':
 		return "s" + Hx([]byte(v.s))
 	case 'b':
@@ -95,56 +57,107 @@ func (v cval) enc() string {
 			return "b1"
 		}
 		return "b0"
+	case 'a':
+		parts := []string{"a" + strconv.Itoa(len(v.els))}
+		for _, e := range v.els {
+			parts = append(parts, e.enc())
+		}
+		return strings.Join(parts, ".")
 	default:
-		return "f" + strconv.FormatInt(v.q, 10)
+		parts := []string{"m" + strconv.Itoa(len(v.els))}
+		for i, e := range v.els {
+			parts = append(parts, v.keys[i].enc(), e.enc())
+		}
+		return strings.Join(parts, ".")
 	}
 }
-func (v cval) src() string {
+
+func (v val) src() string {
 	switch v.kind {
-	case 'p':
-		return v.p.src()
+	case 'i':
+		return strconv.FormatInt(v.n, 10)
+	case 'f':
+		return fmt.Sprintf("%.2f", float64(v.n)/4)
+	case 'z':
+		return "-0.0"
+	case 'n':
+		return "nil"
 	case 's':
 		return strconv.Quote(v.s)
 	case 'b':
 		return strconv.FormatBool(v.b)
-	default:
-		return fmt.Sprintf("%.2f", float64(v.q)/4)
-	}
-}
-func (v cval) typeName() string {
-	switch v.kind {
-	case 's':
-		return "string"
-	case 'b':
-		return "bool"
-	case 'f':
-		return "float"
-	}
-	switch v.p.kind {
-	case 'i':
-		return "int"
-	case 'n':
-		return "nil"
 	case 'a':
-		if len(v.p.els) > object.MaxSmallArray {
-			return "bigarray"
+		parts := make([]string, len(v.els))
+		for i, e := range v.els {
+			parts[i] = e.src()
 		}
-		return "smallarray"
+		return "[" + strings.Join(parts, ",") + "]"
 	default:
-		if len(v.p.els) > object.MaxSmallMap {
-			return "bigmap"
+		parts := make([]string, len(v.els))
+		for i, e := range v.els {
+			parts[i] = v.keys[i].src() + ":" + e.src()
 		}
-		return "smallmap"
+		return "{" + strings.Join(parts, ",") + "}"
 	}
 }
+
+// ---- expressions (right-hand sides)
+type expr struct {
+	kind byte // 0 literal, N S W X R P C
+	v    val
+	y    string
+	l, r int64
+	k    val
+}
+
+func (x expr) enc() string {
+	switch x.kind {
+	case 0:
+		return x.v.enc()
+	case 'N', 'W', 'R':
+		return string(x.kind) + ":" + x.y
+	case 'S':
+		return fmt.Sprintf("S:%s:%d:%d", x.y, x.l, x.r)
+	case 'X':
+		return "X:" + x.y + ":" + x.k.enc()
+	case 'P':
+		return "P:" + x.y + ":" + x.v.enc()
+	default:
+		return "C:" + x.y + ":" + x.k.enc() + ":" + x.v.enc()
+	}
+}
+func (x expr) src(uniq *int) string {
+	switch x.kind {
+	case 0:
+		return x.v.src()
+	case 'N':
+		return x.y
+	case 'S':
+		return fmt.Sprintf("%s[%d:%d]", x.y, x.l, x.r)
+	case 'W':
+		return "[" + x.y + "]"
+	case 'X':
+		return x.y + "[" + x.k.src() + "]"
+	case 'R':
+		*uniq++
+		return fmt.Sprintf("func(){%d;%s}()", *uniq, x.y)
+	case 'P':
+		return x.y + "+[" + x.v.src() + "]"
+	default:
+		*uniq++
+		return fmt.Sprintf("func(pp){%d;pp[%s]=%s;pp}(%s)", *uniq, x.k.src(), x.v.src(), x.y)
+	}
+}
+func lit(v val) expr { return expr{v: v} }
 
 // ---- attempts
 type attempt struct {
 	kind string // AS IN IX DE DL FI FL CL RD
 	name string
-	v    cval
-	p    pval
-	l    []pval
+	ex   expr
+	v    val
+	k    val
+	l    []val
 	a, b int64
 	flag bool
 }
@@ -156,13 +169,13 @@ func (a attempt) enc() string {
 	}
 	switch a.kind {
 	case "AS":
-		return fmt.Sprintf("AS,%s,%s,%s", a.name, a.v.enc(), f)
+		return fmt.Sprintf("AS,%s,%s,%s", a.name, a.ex.enc(), f)
 	case "IN":
 		return fmt.Sprintf("IN,%s,%d,%s", a.name, a.a, f)
 	case "IX":
-		return fmt.Sprintf("IX,%s,%d,%s", a.name, a.a, a.p.enc())
+		return fmt.Sprintf("IX,%s,%s,%s", a.name, a.k.enc(), a.v.enc())
 	case "DE":
-		return fmt.Sprintf("DE,%s,%d", a.name, a.a)
+		return fmt.Sprintf("DE,%s,%s", a.name, a.k.enc())
 	case "DL":
 		return "DL," + a.name
 	case "FI":
@@ -185,9 +198,9 @@ func (a attempt) src(uniq *int) string {
 	switch a.kind {
 	case "AS":
 		if a.flag {
-			return a.name + ":=" + a.v.src()
+			return a.name + ":=" + a.ex.src(uniq)
 		}
-		return a.name + "=" + a.v.src()
+		return a.name + "=" + a.ex.src(uniq)
 	case "IN":
 		op := "++"
 		if a.a < 0 {
@@ -198,9 +211,9 @@ func (a attempt) src(uniq *int) string {
 		}
 		return a.name + op
 	case "IX":
-		return fmt.Sprintf("%s[%d]=%s", a.name, a.a, a.p.src())
+		return fmt.Sprintf("%s[%s]=%s", a.name, a.k.src(), a.v.src())
 	case "DE":
-		return fmt.Sprintf("del(%s[%d])", a.name, a.a)
+		return fmt.Sprintf("del(%s[%s])", a.name, a.k.src())
 	case "DL":
 		return "del(" + a.name + ")"
 	case "FI":
@@ -222,10 +235,28 @@ func (a attempt) src(uniq *int) string {
 func (a attempt) kindName() string {
 	switch a.kind {
 	case "AS":
+		k := "assign"
 		if a.flag {
-			return "define"
+			k = "define"
 		}
-		return "assign"
+		switch a.ex.kind {
+		case 0:
+			return k
+		case 'N':
+			return k + "-alias"
+		case 'S':
+			return k + "-slice"
+		case 'W':
+			return k + "-wrap"
+		case 'X':
+			return k + "-element"
+		case 'R':
+			return k + "-returned"
+		case 'P':
+			return k + "-append"
+		default:
+			return k + "-calleewrite"
+		}
 	case "IN":
 		return "incrdecr"
 	case "IX":
@@ -277,64 +308,81 @@ func scopeName(s byte) string {
 }
 
 // ---- decoding for replay
-func decPval(ts []string) (pval, []string) {
+func i64(x string) int64 { n, _ := strconv.ParseInt(x, 10, 64); return n }
+func decLeaf(t string) val {
+	switch t[0] {
+	case 'i':
+		return val{kind: 'i', n: i64(t[1:])}
+	case 'f':
+		return val{kind: 'f', n: i64(t[1:])}
+	case 'z':
+		return val{kind: 'z'}
+	case 'n':
+		return val{kind: 'n'}
+	case 's':
+		return val{kind: 's', s: string(Unhx(t[1:]))}
+	default:
+		return val{kind: 'b', b: t[1] == '1'}
+	}
+}
+func decVal(ts []string) (val, []string) {
 	t := ts[0]
 	rest := ts[1:]
 	switch t[0] {
-	case 'i':
-		n, _ := strconv.ParseInt(t[1:], 10, 64)
-		return pval{kind: 'i', n: n}, rest
-	case 'n':
-		return pval{kind: 'n'}, rest
 	case 'a':
 		n, _ := strconv.Atoi(t[1:])
-		p := pval{kind: 'a'}
+		p := val{kind: 'a'}
 		for i := 0; i < n; i++ {
-			var e pval
-			e, rest = decPval(rest)
+			var e val
+			e, rest = decVal(rest)
 			p.els = append(p.els, e)
 		}
 		return p, rest
-	default:
+	case 'm':
 		n, _ := strconv.Atoi(t[1:])
-		p := pval{kind: 'm'}
+		p := val{kind: 'm'}
 		for i := 0; i < n; i++ {
-			k, _ := strconv.ParseInt(rest[0], 10, 64)
-			var e pval
-			e, rest = decPval(rest[1:])
+			k := decLeaf(rest[0])
+			var e val
+			e, rest = decVal(rest[1:])
 			p.keys = append(p.keys, k)
 			p.els = append(p.els, e)
 		}
 		return p, rest
 	}
+	return decLeaf(t), rest
 }
-func decCval(s string) cval {
-	switch s[0] {
-	case 's':
-		return cval{kind: 's', s: string(Unhx(s[1:]))}
-	case 'b':
-		return cval{kind: 'b', b: s[1] == '1'}
-	case 'f':
-		q, _ := strconv.ParseInt(s[1:], 10, 64)
-		return cval{kind: 'f', q: q}
+func decValS(s string) val { v, _ := decVal(strings.Split(s, ".")); return v }
+func decExpr(s string) expr {
+	if len(s) > 1 && s[1] == ':' {
+		f := strings.Split(s, ":")
+		x := expr{kind: s[0], y: f[1]}
+		switch s[0] {
+		case 'S':
+			x.l, x.r = i64(f[2]), i64(f[3])
+		case 'X':
+			x.k = decLeaf(f[2])
+		case 'P':
+			x.v = decValS(f[2])
+		case 'C':
+			x.k, x.v = decLeaf(f[2]), decValS(f[3])
+		}
+		return x
 	}
-	p, _ := decPval(strings.Split(s, "."))
-	return cval{kind: 'p', p: p}
+	return lit(decValS(s))
 }
 func decEvent(s string) event {
 	f := strings.Split(s[2:], ",")
 	a := attempt{kind: f[0], name: f[1]}
-	i64 := func(x string) int64 { n, _ := strconv.ParseInt(x, 10, 64); return n }
 	switch f[0] {
 	case "AS":
-		a.v, a.flag = decCval(f[2]), f[3] == "1"
+		a.ex, a.flag = decExpr(f[2]), f[3] == "1"
 	case "IN":
 		a.a, a.flag = i64(f[2]), f[3] == "1"
 	case "IX":
-		a.a = i64(f[2])
-		a.p, _ = decPval(strings.Split(f[3], "."))
+		a.k, a.v = decLeaf(f[2]), decValS(f[3])
 	case "DE":
-		a.a = i64(f[2])
+		a.k = decLeaf(f[2])
 	case "FI":
 		a.a, a.b = i64(f[2]), i64(f[3])
 	case "FL":
@@ -342,12 +390,12 @@ func decEvent(s string) event {
 		n, _ := strconv.Atoi(ts[0])
 		ts = ts[1:]
 		for i := 0; i < n; i++ {
-			var e pval
-			e, ts = decPval(ts)
+			var e val
+			e, ts = decVal(ts)
 			a.l = append(a.l, e)
 		}
 	case "CL":
-		a.v = decCval(f[2])
+		a.v = decValS(f[2])
 	}
 	return event{scope: s[0], a: a}
 }
@@ -381,13 +429,53 @@ func (se *session) exec(src string) (string, bool, []string) {
 	return "ok=" + strings.TrimSpace(out.String()), false, nil
 }
 
-// top-level value of a name ("-" when unbound)
-func (se *session) value(name string) string {
-	o, err := eval.EvalString(se.s, name, false)
-	if err != nil {
-		return "-"
+// exact rendering of a value: like Inspect, but every float is written with a fraction (1.0, -0.0), so an integer
+// and the float of the same value, and the two zeros, are told apart - in elements, values and keys, at any depth
+func exact(o object.Object) string {
+	switch x := o.(type) {
+	case object.Integer:
+		return strconv.FormatInt(x.Value, 10)
+	case object.Float:
+		if x.Value == 0 && math.Signbit(x.Value) {
+			return "-0.0"
+		}
+		s := strconv.FormatFloat(x.Value, 'f', -1, 64)
+		if !strings.ContainsAny(s, ".eIN") {
+			s += ".0"
+		}
+		return s
+	}
+	switch o.Type() { //nolint:exhaustive // the rest prints as Inspect
+	case object.ARRAY:
+		els := object.Elements(o)
+		parts := make([]string, len(els))
+		for i, e := range els {
+			parts[i] = exact(e)
+		}
+		return "[" + strings.Join(parts, ",") + "]"
+	case object.MAP:
+		m, ok := o.(object.Map)
+		if !ok {
+			return o.Inspect()
+		}
+		keys := object.Elements(o)
+		parts := make([]string, len(keys))
+		for i, k := range keys {
+			v, _ := m.Get(k)
+			parts[i] = exact(k) + ":" + exact(v)
+		}
+		return "{" + strings.Join(parts, ",") + "}"
 	}
 	return o.Inspect()
+}
+
+// top-level value of a name: exact rendering and Inspect ("-" when unbound)
+func (se *session) value(name string) (string, string) {
+	o, err := eval.EvalString(se.s, name, false)
+	if err != nil {
+		return "-", "-"
+	}
+	return exact(o), o.Inspect()
 }
 
 // the value as seen from inside a function
@@ -397,7 +485,7 @@ func (se *session) innerValue(name string) string {
 	if err != nil {
 		return "-"
 	}
-	return o.Inspect()
+	return exact(o)
 }
 
 type runResult struct {
@@ -412,11 +500,12 @@ func c19Run(c *Ctx, noReg bool, names []string, evs []event, line string) runRes
 	if noReg {
 		mode = "noreg"
 	}
-	first := map[string]string{}   // first rendering of each bound constant
-	firstTy := map[string]string{} // its value type, for the signature
+	first := map[string]string{}    // first exact rendering of each bound constant
+	firstIns := map[string]string{} // its Inspect text
+	firstTy := map[string]string{}  // its value type, for the signature
 	var res runResult
 	for _, n := range names {
-		if v := se.value(n); v != "-" {
+		if v, _ := se.value(n); v != "-" {
 			c.Fail("harness-name-prebound", line, n+" is already bound to "+v)
 		}
 	}
@@ -436,7 +525,7 @@ func c19Run(c *Ctx, noReg bool, names []string, evs []event, line string) runRes
 		}
 		var bs []string
 		for _, n := range names {
-			v := se.value(n)
+			v, ins := se.value(n)
 			bs = append(bs, n+"="+v)
 			if !object.Constant(n) {
 				continue
@@ -444,25 +533,30 @@ func c19Run(c *Ctx, noReg bool, names []string, evs []event, line string) runRes
 			if f, ok := first[n]; ok {
 				sig := fmt.Sprintf("const-changed-%s-%s-%s", ev.a.kindName(), firstTy[n], scopeName(ev.scope))
 				if v != f {
+					if ins == firstIns[n] {
+						sig += "-sameprint" // == and printed alike, yet another value (int/float, 0.0/-0.0)
+					}
 					c.Fail(sig, line, fmt.Sprintf("%s step %d %q: %s was %s, now %s", mode, idx, src, n, f, v))
-					first[n] = v // report each change once
+					first[n], firstIns[n] = v, ins // report each change once
 				} else if iv := se.innerValue(n); iv != f {
 					c.Fail(sig+"-inner", line, fmt.Sprintf("%s step %d %q: %s read inside a function is %s, was %s", mode, idx, src, n, iv, f))
 				}
 			} else if v != "-" {
-				first[n] = v
+				first[n], firstIns[n] = v, ins
 				firstTy[n] = typeOfRendering(v)
 			}
 		}
 		// the attempt itself must not have observed another value for a bound constant: a loop over / a call with the
 		// name returns what the name evaluated to inside
-		if f, ok := first[ev.a.name]; ok && object.Constant(ev.a.name) && strings.HasPrefix(out, "ok=") {
-			switch ev.a.kind {
-			case "FI", "FL", "CL", "RD":
-				got := out[3:]
-				if got != f && !(got == "nil" && (ev.a.kind == "FI" || ev.a.kind == "FL")) {
-					c.Fail(fmt.Sprintf("const-shadowed-%s-%s", ev.a.kindName(), scopeName(ev.scope)), line,
-						fmt.Sprintf("%s step %d %q evaluated %s to %s, it is bound to %s", mode, idx, src, ev.a.name, got, f))
+		if f, ok := firstIns[ev.a.name]; ok && first[ev.a.name] != "" && object.Constant(ev.a.name) && strings.HasPrefix(out, "ok=") {
+			if _, bound := first[ev.a.name]; bound {
+				switch ev.a.kind {
+				case "FI", "FL", "CL", "RD":
+					got := out[3:]
+					if got != f && !(got == "nil" && (ev.a.kind == "FI" || ev.a.kind == "FL")) {
+						c.Fail(fmt.Sprintf("const-shadowed-%s-%s", ev.a.kindName(), scopeName(ev.scope)), line,
+							fmt.Sprintf("%s step %d %q evaluated %s to %s, it is bound to %s", mode, idx, src, ev.a.name, got, f))
+					}
 				}
 			}
 		}
@@ -524,6 +618,9 @@ func c19Seq(c *Ctx, names []string, evs []event) {
 	nontrivial := false
 	for i := range evs {
 		a, b := r.outcomes[i], n.outcomes[i]
+		if evs[i].a.kind != "RD" && i > 0 {
+			nontrivial = true
+		}
 		if !object.Constant(evs[i].a.name) {
 			continue // a non-constant loop variable or parameter lives in a register in one mode only: that is C05's subject
 		}
@@ -534,9 +631,6 @@ func c19Seq(c *Ctx, names []string, evs []event) {
 			c.Fail("regmode-disagree-result-"+evs[i].a.kindName()+"-"+scopeName(evs[i].scope), lineR,
 				fmt.Sprintf("step %d %q: registers on: %s, off: %s", i, evs[i].enc(), a, b))
 		}
-		if evs[i].a.kind != "RD" && i > 0 {
-			nontrivial = true
-		}
 	}
 	if nontrivial {
 		c.NonTrivial(body)
@@ -546,58 +640,149 @@ func c19Seq(c *Ctx, names []string, evs []event) {
 }
 
 // ---- generators
-func pi(n int64) pval { return pval{kind: 'i', n: n} }
-func parr(n int, from int64) pval {
-	p := pval{kind: 'a'}
+func vi(n int64) val      { return val{kind: 'i', n: n} }
+func vf(q int64) val      { return val{kind: 'f', n: q} }
+func vs(s string) val     { return val{kind: 's', s: s} }
+func vb(b bool) val       { return val{kind: 'b', b: b} }
+func varr(els ...val) val { return val{kind: 'a', els: els} }
+func parr(n int, from int64) val {
+	p := val{kind: 'a'}
 	for i := 0; i < n; i++ {
-		p.els = append(p.els, pi(from+int64(i)))
+		p.els = append(p.els, vi(from+int64(i)))
 	}
 	return p
 }
-func pmap(n int, from int64) pval {
-	p := pval{kind: 'm'}
+func pmap(n int, from int64) val {
+	p := val{kind: 'm'}
 	for i := 0; i < n; i++ {
-		p.keys = append(p.keys, int64(i+1))
-		p.els = append(p.els, pi(from+int64(i)))
+		p.keys = append(p.keys, vi(int64(i+1)))
+		p.els = append(p.els, vi(from+int64(i)))
 	}
 	return p
 }
-func cp(p pval) cval              { return cval{kind: 'p', p: p} }
-func ci(n int64) cval             { return cp(pi(n)) }
-func cs(s string) cval            { return cval{kind: 's', s: s} }
-func cf(q int64) cval             { return cval{kind: 'f', q: q} }
-func cb(b bool) cval              { return cval{kind: 'b', b: b} }
-func T(a attempt) event           { return event{'T', a} }
-func as(n string, v cval) attempt { return attempt{kind: "AS", name: n, v: v} }
+func vmap(kv ...val) val {
+	p := val{kind: 'm'}
+	for i := 0; i+1 < len(kv); i += 2 {
+		p.keys = append(p.keys, kv[i])
+		p.els = append(p.els, kv[i+1])
+	}
+	return sortMap(p)
+}
+
+// maps are kept in key order (numbers by value, then strings bytewise), as the interpreter stores them
+func keyLess(a, b val) bool {
+	an, bn := a.kind != 's', b.kind != 's'
+	if an != bn {
+		return an
+	}
+	if !an {
+		return a.s < b.s
+	}
+	q := func(v val) int64 {
+		switch v.kind {
+		case 'i':
+			return v.n * 4
+		case 'f':
+			return v.n
+		}
+		return 0
+	}
+	return q(a) < q(b)
+}
+func sortMap(p val) val {
+	idx := make([]int, len(p.keys))
+	for i := range idx {
+		idx[i] = i
+	}
+	sort.SliceStable(idx, func(i, j int) bool { return keyLess(p.keys[idx[i]], p.keys[idx[j]]) })
+	q := val{kind: 'm'}
+	for _, i := range idx {
+		q.keys = append(q.keys, p.keys[i])
+		q.els = append(q.els, p.els[i])
+	}
+	return q
+}
+func T(a attempt) event             { return event{'T', a} }
+func as(n string, v val) attempt    { return attempt{kind: "AS", name: n, ex: lit(v)} }
+func asx(n string, x expr) attempt  { return attempt{kind: "AS", name: n, ex: x} }
+func ix(n string, k, v val) attempt { return attempt{kind: "IX", name: n, k: k, v: v} }
+func rd(n string) attempt           { return attempt{kind: "RD", name: n} }
 
 func corpus() ([][]string, [][]event) {
 	var names [][]string
 	var seqs [][]event
 	add := func(ns []string, evs ...event) { names = append(names, ns); seqs = append(seqs, evs) }
 	// A=[1..9];A[0]=5;A
-	add([]string{"A"}, T(as("A", cp(parr(9, 1)))), T(attempt{kind: "IX", name: "A", a: 0, p: pi(5)}), T(attempt{kind: "RD", name: "A"}))
+	add([]string{"A"}, T(as("A", parr(9, 1))), T(ix("A", vi(0), vi(5))), T(rd("A")))
 	// big-map constant: M[1]=7, del(M[1]), M[9]=7
-	add([]string{"M"}, T(as("M", cp(pmap(5, 1)))), T(attempt{kind: "IX", name: "M", a: 1, p: pi(7)}),
-		T(attempt{kind: "DE", name: "M", a: 1}), T(attempt{kind: "IX", name: "M", a: 9, p: pi(7)}), T(attempt{kind: "RD", name: "M"}))
+	add([]string{"M"}, T(as("M", pmap(5, 1))), T(ix("M", vi(1), vi(7))),
+		T(attempt{kind: "DE", name: "M", k: vi(1)}), T(ix("M", vi(9), vi(7))), T(rd("M")))
 	// func f(PJ){PJ};f(3)   and   for PJ=0:3{PJ}
-	add([]string{"PJ"}, T(as("PJ", cf(13))), T(attempt{kind: "CL", name: "PJ", v: ci(3)}), T(attempt{kind: "FI", name: "PJ", a: 0, b: 3}),
-		T(attempt{kind: "FL", name: "PJ", l: []pval{pi(1), pi(2)}}), T(attempt{kind: "IN", name: "PJ", a: 1}), T(attempt{kind: "RD", name: "PJ"}))
+	add([]string{"PJ"}, T(as("PJ", vf(13))), T(attempt{kind: "CL", name: "PJ", v: vi(3)}), T(attempt{kind: "FI", name: "PJ", a: 0, b: 3}),
+		T(attempt{kind: "FL", name: "PJ", l: []val{vi(1), vi(2)}}), T(attempt{kind: "IN", name: "PJ", a: 1}), T(rd("PJ")))
+	// == but not identical: ARR=[1,2,3];ARR=[1.0,2,3]   M={"a":7};M={"a":7.0}   N=1;N=1.0   H=2.0;H=2   Z=0.0;Z=-0.0
+	// K={1:5};K={1.0:5}   nested   index assignment of the == element   above the thresholds
+	for _, sc := range []byte{'T', 'F', 'L'} {
+		for _, def := range []bool{false, true} {
+			re := func(n string, v val) event { return event{sc, attempt{kind: "AS", name: n, ex: lit(v), flag: def}} }
+			add([]string{"ARR"}, T(as("ARR", varr(vi(1), vi(2), vi(3)))), re("ARR", varr(vf(4), vi(2), vi(3))), T(rd("ARR")))
+			add([]string{"M"}, T(as("M", vmap(vs("a"), vi(7)))), re("M", vmap(vs("a"), vf(28))), T(rd("M")))
+			add([]string{"N"}, T(as("N", vi(1))), re("N", vf(4)), T(rd("N")))
+			add([]string{"H"}, T(as("H", vf(8))), re("H", vi(2)), T(rd("H")))
+			add([]string{"Z"}, T(as("Z", vf(0))), re("Z", val{kind: 'z'}), T(rd("Z")), re("Z", vf(0)))
+			add([]string{"K"}, T(as("K", vmap(vi(1), vi(5)))), re("K", vmap(vf(4), vi(5))), T(rd("K")))
+			add([]string{"D"}, T(as("D", varr(varr(vi(1), varr(vi(2)))))), re("D", varr(varr(vi(1), varr(vf(8))))), T(rd("D")))
+			add([]string{"B"}, T(as("B", parr(10, 1))), re("B", func() val { p := parr(10, 1); p.els[9] = vf(40); return p }()), T(rd("B")))
+			add([]string{"BM"}, T(as("BM", pmap(6, 1))), re("BM", func() val { p := pmap(6, 1); p.keys[2] = vf(12); return p }()),
+				re("BM", func() val { p := pmap(6, 1); p.els[5] = vf(24); return p }()), T(rd("BM")))
+		}
+		add([]string{"A"}, T(as("A", varr(vi(1), vi(2), vi(3)))), event{sc, ix("A", vi(0), vf(4))}, T(rd("A")),
+			event{sc, ix("A", vi(0), vi(1))}, event{sc, attempt{kind: "FL", name: "A", l: []val{varr(vf(4), vi(2), vi(3))}}},
+			event{sc, attempt{kind: "CL", name: "A", v: varr(vi(1), vf(8), vi(3))}}, T(rd("A")))
+		add([]string{"MK"}, T(as("MK", vmap(vi(1), vi(5), vs("a"), vf(0)))), event{sc, ix("MK", vf(4), vi(5))}, event{sc, ix("MK", vi(1), vf(20))},
+			event{sc, ix("MK", vs("a"), val{kind: 'z'})}, T(rd("MK")))
+	}
+	// mutation through an alias of the constant's value: by assignment, slice, container, return value, parameter, append
+	for _, size := range []int{3, 8, 9, 12} {
+		for _, sc := range []byte{'T', 'F'} {
+			A := parr(size, 1)
+			add([]string{"A", "b", "c"}, T(as("A", A)),
+				T(asx("b", expr{kind: 'N', y: "A"})), event{sc, ix("b", vi(1), vi(99))}, T(rd("A")),
+				T(asx("b", expr{kind: 'S', y: "A", l: 1, r: int64(size)})), event{sc, ix("b", vi(0), vi(98))},
+				T(asx("c", expr{kind: 'W', y: "A"})), T(asx("b", expr{kind: 'X', y: "c", k: vi(0)})), event{sc, ix("b", vi(-1), vi(97))},
+				T(asx("b", expr{kind: 'R', y: "A"})), event{sc, ix("b", vi(2), vi(96))},
+				event{sc, asx("b", expr{kind: 'C', y: "A", k: vi(0), v: vi(95)})},
+				T(asx("b", expr{kind: 'P', y: "A", v: vi(94)})), event{sc, ix("b", vi(0), vi(93))}, T(asx("c", expr{kind: 'P', y: "A", v: vi(92)})),
+				T(rd("A")))
+		}
+	}
+	for _, size := range []int{3, 4, 5, 7} {
+		for _, sc := range []byte{'T', 'F'} {
+			add([]string{"M", "b", "c"}, T(as("M", pmap(size, 1))),
+				T(asx("b", expr{kind: 'N', y: "M"})), event{sc, ix("b", vi(1), vi(99))}, event{sc, attempt{kind: "DE", name: "b", k: vi(2)}},
+				event{sc, ix("b", vi(40), vi(1))}, T(rd("M")),
+				T(asx("b", expr{kind: 'S', y: "M", l: 0, r: int64(size)})), event{sc, ix("b", vi(1), vi(98))},
+				T(asx("c", expr{kind: 'W', y: "M"})), T(asx("b", expr{kind: 'X', y: "c", k: vi(0)})), event{sc, attempt{kind: "DE", name: "b", k: vi(1)}},
+				T(asx("b", expr{kind: 'R', y: "M"})), event{sc, ix("b", vi(3), vi(96))},
+				event{sc, asx("b", expr{kind: 'C', y: "M", k: vi(1), v: vi(95)})}, T(rd("M")))
+		}
+	}
 	// every kind of attempt from nested scopes on an integer constant
 	for _, sc := range []byte{'T', 'F', 'G', 'L'} {
-		add([]string{"K", "x"}, T(as("K", ci(7))),
-			event{sc, as("K", ci(8))}, event{sc, attempt{kind: "AS", name: "K", v: ci(8), flag: true}}, event{sc, as("K", ci(7))},
+		add([]string{"K", "x"}, T(as("K", vi(7))),
+			event{sc, as("K", vi(8))}, event{sc, attempt{kind: "AS", name: "K", ex: lit(vi(8)), flag: true}}, event{sc, as("K", vi(7))},
 			event{sc, attempt{kind: "IN", name: "K", a: 1}}, event{sc, attempt{kind: "IN", name: "K", a: -1, flag: true}},
-			event{sc, attempt{kind: "CL", name: "K", v: ci(9)}}, event{sc, attempt{kind: "CL", name: "K", v: ci(7)}},
-			event{sc, attempt{kind: "FI", name: "K", a: 0, b: 3}}, event{sc, attempt{kind: "FL", name: "K", l: []pval{pi(7), pi(1)}}},
-			event{sc, attempt{kind: "RD", name: "K"}}, event{sc, attempt{kind: "DL", name: "K"}}, T(as("K", ci(1))), T(attempt{kind: "RD", name: "K"}))
+			event{sc, attempt{kind: "CL", name: "K", v: vi(9)}}, event{sc, attempt{kind: "CL", name: "K", v: vi(7)}},
+			event{sc, attempt{kind: "FI", name: "K", a: 0, b: 3}}, event{sc, attempt{kind: "FL", name: "K", l: []val{vi(7), vi(1)}}},
+			event{sc, rd("K")}, event{sc, attempt{kind: "DL", name: "K"}}, T(as("K", vi(1))), T(rd("K")))
 	}
 	// containers of both representations, from nested scopes
 	for _, sc := range []byte{'T', 'F', 'G', 'L'} {
-		for _, v := range []pval{parr(3, 1), parr(12, 1), pmap(3, 1), pmap(6, 1)} {
-			add([]string{"C_1"}, T(as("C_1", cp(v))),
-				event{sc, attempt{kind: "IX", name: "C_1", a: 1, p: pi(99)}}, event{sc, attempt{kind: "IX", name: "C_1", a: 2, p: pi(2)}},
-				event{sc, attempt{kind: "IX", name: "C_1", a: 40, p: pi(1)}}, event{sc, attempt{kind: "DE", name: "C_1", a: 2}},
-				event{sc, attempt{kind: "DE", name: "C_1", a: 77}}, event{sc, as("C_1", cp(v))}, event{sc, attempt{kind: "RD", name: "C_1"}})
+		for _, v := range []val{parr(3, 1), parr(12, 1), pmap(3, 1), pmap(6, 1)} {
+			add([]string{"C_1"}, T(as("C_1", v)),
+				event{sc, ix("C_1", vi(1), vi(99))}, event{sc, ix("C_1", vi(2), vi(2))},
+				event{sc, ix("C_1", vi(40), vi(1))}, event{sc, attempt{kind: "DE", name: "C_1", k: vi(2)}},
+				event{sc, attempt{kind: "DE", name: "C_1", k: vi(77)}}, event{sc, as("C_1", v)}, event{sc, rd("C_1")})
 		}
 	}
 	return names, seqs
@@ -606,52 +791,146 @@ func corpus() ([][]string, [][]event) {
 var constNames = []string{"A", "KB", "K_1", "X9", "PJ"}
 var varNames = []string{"x", "kA", "Ab"}
 
-func randPval(c *Ctx, depth int) pval {
+func randNum(c *Ctx) val {
+	switch k := c.R.Intn(10); {
+	case k < 6:
+		return vi(int64(c.R.Intn(20)))
+	case k < 9:
+		return vf(int64(c.R.Intn(41)) - 4)
+	default:
+		return val{kind: 'z'}
+	}
+}
+
+func randLeaf(c *Ctx) val {
+	switch k := c.R.Intn(12); {
+	case k < 8:
+		return randNum(c)
+	case k < 9:
+		return val{kind: 'n'}
+	case k < 11:
+		return vs([]string{"", "a", "hello", "k"}[c.R.Intn(4)])
+	default:
+		return vb(c.R.Bool())
+	}
+}
+
+// a key that does not collide (under ==) with the ones already in use
+func randKeys(c *Ctx, n int) []val {
+	var ks []val
+	usedNum := map[int64]bool{}
+	usedStr := map[string]bool{}
+	for len(ks) < n {
+		if c.R.Pct(20) {
+			s := []string{"a", "b", "k", "key", "z"}[c.R.Intn(5)]
+			if !usedStr[s] {
+				usedStr[s] = true
+				ks = append(ks, vs(s))
+			}
+			continue
+		}
+		q := int64(c.R.Intn(16))
+		if usedNum[q*4] {
+			continue
+		}
+		usedNum[q*4] = true
+		if c.R.Pct(25) {
+			ks = append(ks, vf(q*4))
+		} else {
+			ks = append(ks, vi(q))
+		}
+	}
+	return ks
+}
+
+func randVal(c *Ctx, depth int) val {
 	switch k := c.R.Intn(10); {
 	case k < 4 || depth <= 0:
-		return pi(int64(c.R.Intn(20)))
-	case k < 5:
-		return pval{kind: 'n'}
+		return randLeaf(c)
 	case k < 8:
 		sizes := []int{0, 1, 3, 8, 9, 12}
 		n := sizes[c.R.Intn(len(sizes))]
-		p := pval{kind: 'a'}
+		p := val{kind: 'a'}
 		for i := 0; i < n; i++ {
-			p.els = append(p.els, randPval(c, depth-1))
+			p.els = append(p.els, randVal(c, depth-1))
 		}
 		return p
 	default:
 		sizes := []int{0, 1, 4, 5, 7}
 		n := sizes[c.R.Intn(len(sizes))]
-		p := pval{kind: 'm'}
+		p := val{kind: 'm', keys: randKeys(c, n)}
 		for i := 0; i < n; i++ {
-			p.keys = append(p.keys, int64(i*2+1))
-			p.els = append(p.els, randPval(c, depth-1))
+			p.els = append(p.els, randVal(c, depth-1))
 		}
-		return p
+		return sortMap(p)
 	}
 }
 
-func randCval(c *Ctx) cval {
-	switch k := c.R.Intn(10); {
-	case k < 6:
-		return cp(randPval(c, 2))
-	case k < 7:
-		return cs([]string{"", "a", "hello", "K"}[c.R.Intn(4)])
-	case k < 8:
-		return cb(c.R.Bool())
-	default:
-		return cf(int64(c.R.Intn(40) + 1))
+// the == twin of a number: same value, other type (or other zero)
+func twinNum(c *Ctx, v val) (val, bool) {
+	switch v.kind {
+	case 'i':
+		return vf(v.n * 4), true
+	case 'f':
+		if v.n == 0 {
+			if c.R.Bool() {
+				return val{kind: 'z'}, true
+			}
+			return vi(0), true
+		}
+		if v.n%4 == 0 {
+			return vi(v.n / 4), true
+		}
+	case 'z':
+		if c.R.Bool() {
+			return vf(0), true
+		}
+		return vi(0), true
 	}
+	return v, false
+}
+
+// a value == to v (for the language) but not identical: one number somewhere in it (element, map value or map key,
+// at any depth) is replaced by its twin.  ok = false when v holds no number that has a twin
+func twin(c *Ctx, v val) (val, bool) {
+	if t, ok := twinNum(c, v); ok {
+		return t, true
+	}
+	if v.kind != 'a' && v.kind != 'm' {
+		return v, false
+	}
+	n := len(v.els)
+	if n == 0 {
+		return v, false
+	}
+	w := val{kind: v.kind, els: append([]val(nil), v.els...), keys: append([]val(nil), v.keys...)}
+	start := c.R.Intn(n)
+	for d := 0; d < n; d++ {
+		i := (start + d) % n
+		if v.kind == 'm' && c.R.Pct(30) {
+			if t, ok := twinNum(c, v.keys[i]); ok {
+				w.keys[i] = t
+				return w, true
+			}
+		}
+		if t, ok := twin(c, v.els[i]); ok {
+			w.els[i] = t
+			return w, true
+		}
+	}
+	return v, false
 }
 
 func c19Random(c *Ctx, nEvents int) {
 	// which names take part
-	names := []string{constNames[c.R.Intn(len(constNames))], constNames[c.R.Intn(len(constNames))], varNames[c.R.Intn(len(varNames))]}
+	names := []string{constNames[c.R.Intn(len(constNames))], constNames[c.R.Intn(len(constNames))], varNames[c.R.Intn(len(varNames))], varNames[c.R.Intn(len(varNames))]}
 	if names[0] == names[1] {
 		names = names[1:]
 	}
-	cur := map[string]cval{} // what the generator believes each name holds (only to aim attempts; may be stale)
+	if names[len(names)-1] == names[len(names)-2] {
+		names = names[:len(names)-1]
+	}
+	cur := map[string]val{} // what the generator believes each name holds (only to aim attempts; may be stale)
 	has := map[string]bool{}
 	var evs []event
 	scopes := []byte{'T', 'T', 'T', 'F', 'F', 'G', 'L'}
@@ -659,7 +938,18 @@ func c19Random(c *Ctx, nEvents int) {
 		n := names[c.R.Intn(len(names))]
 		sc := scopes[c.R.Intn(len(scopes))]
 		if !has[n] && c.R.Pct(80) {
-			v := randCval(c)
+			v := randVal(c, 2)
+			if !object.Constant(n) && c.R.Pct(50) { // an alias of a constant's value
+				for _, m := range names {
+					if object.Constant(m) && has[m] {
+						evs = append(evs, T(asx(n, expr{kind: 'N', y: m})))
+						cur[n], has[n] = cur[m], true
+					}
+				}
+				if has[n] {
+					continue
+				}
+			}
 			evs = append(evs, T(as(n, v)))
 			cur[n], has[n] = v, true
 			continue
@@ -667,79 +957,160 @@ func c19Random(c *Ctx, nEvents int) {
 		v := cur[n]
 		var a attempt
 		switch k := c.R.Intn(100); {
-		case k < 18:
-			nv := randCval(c)
-			if c.R.Pct(35) {
+		case k < 14: // literal, the identical value, or an == twin
+			nv := randVal(c, 2)
+			if c.R.Pct(30) {
 				nv = v
+			} else if c.R.Pct(45) {
+				if t, ok := twin(c, v); ok {
+					nv = t
+				}
 			}
-			a = attempt{kind: "AS", name: n, v: nv, flag: c.R.Pct(30)}
+			a = attempt{kind: "AS", name: n, ex: lit(nv), flag: c.R.Pct(30)}
 			if !object.Constant(n) {
 				cur[n] = nv
 			}
-		case k < 28:
+		case k < 26: // alias-making right-hand sides, from another name (mostly a constant)
+			y := names[c.R.Intn(len(names))]
+			yv := cur[y]
+			ln := int64(len(yv.els))
+			var x expr
+			switch c.R.Intn(7) {
+			case 0:
+				x = expr{kind: 'N', y: y}
+			case 1:
+				l := int64(c.R.Intn(3))
+				x = expr{kind: 'S', y: y, l: l, r: l + int64(c.R.Intn(int(ln)+2))}
+				if c.R.Pct(50) {
+					x.r = ln
+					if x.l > x.r {
+						x.l = 0
+					}
+				}
+			case 2:
+				x = expr{kind: 'W', y: y}
+			case 3:
+				x = expr{kind: 'X', y: y, k: randIndex(c, yv)}
+			case 4:
+				x = expr{kind: 'R', y: y}
+			case 5:
+				x = expr{kind: 'P', y: y, v: randLeaf(c)}
+			default:
+				x = expr{kind: 'C', y: y, k: randIndex(c, yv), v: randLeaf(c)}
+			}
+			if yv.kind == 's' && (x.kind == 'S' || x.kind == 'X') {
+				x = expr{kind: 'N', y: y} // slicing / indexing a string is outside the model
+			}
+			a = attempt{kind: "AS", name: n, ex: x, flag: c.R.Pct(20)}
+			if !object.Constant(n) && (x.kind == 'N' || x.kind == 'R') {
+				cur[n] = yv
+			}
+		case k < 34:
 			d := int64(1)
 			if c.R.Bool() {
 				d = -1
 			}
 			a = attempt{kind: "IN", name: n, a: d, flag: c.R.Bool()}
-		case k < 46:
-			idx := int64(c.R.Intn(14))
-			if v.kind == 'p' && v.p.kind == 'a' && len(v.p.els) > 0 && c.R.Pct(70) {
-				idx = int64(c.R.Intn(len(v.p.els)))
-				if c.R.Pct(20) {
-					idx -= int64(len(v.p.els))
-				}
-			}
-			nv := randPval(c, 1)
-			if v.kind == 'p' && (v.p.kind == 'a' || v.p.kind == 'm') && c.R.Pct(25) { // the element it already holds
-				for i := range v.p.els {
-					if (v.p.kind == 'a' && int64(i) == idx) || (v.p.kind == 'm' && v.p.keys[i] == idx) {
-						nv = v.p.els[i]
+		case k < 52:
+			idx := randIndex(c, v)
+			nv := randVal(c, 1)
+			if (v.kind == 'a' || v.kind == 'm') && c.R.Pct(45) { // the element it already holds, or its twin
+				for i := range v.els {
+					if (v.kind == 'a' && idx.kind == 'i' && (int64(i) == idx.n || int64(i)-int64(len(v.els)) == idx.n)) ||
+						(v.kind == 'm' && v.keys[i].enc() == idx.enc()) {
+						nv = v.els[i]
+						if t, ok := twin(c, nv); ok && c.R.Pct(60) {
+							nv = t
+						}
 					}
 				}
 			}
-			a = attempt{kind: "IX", name: n, a: idx, p: nv}
-		case k < 58:
-			a = attempt{kind: "DE", name: n, a: int64(c.R.Intn(14))}
-		case k < 63:
+			if v.kind == 'm' && c.R.Pct(15) { // the same key as a float / integer
+				if t, ok := twinNum(c, idx); ok {
+					idx = t
+				}
+			}
+			a = ix(n, idx, nv)
+		case k < 62:
+			a = attempt{kind: "DE", name: n, k: randIndex(c, v)}
+		case k < 66:
 			a = attempt{kind: "DL", name: n}
 			has[n] = false
-		case k < 72:
+		case k < 74:
 			lo := int64(c.R.Intn(4))
 			a = attempt{kind: "FI", name: n, a: lo, b: lo + int64(c.R.Intn(4)) - 1 + int64(c.R.Intn(2))}
-		case k < 80:
-			l := []pval{}
-			for i := c.R.Intn(4); i > 0; i-- {
-				l = append(l, randPval(c, 1))
-			}
-			if v.kind == 'p' && c.R.Pct(30) {
-				l = append(l, v.p)
-			}
-			a = attempt{kind: "FL", name: n, l: l}
-		case k < 92:
-			nv := randCval(c)
-			if c.R.Pct(35) {
-				nv = v
+		case k < 82:
+			l := []val{}
+			for i := c.R.Intn(3); i > 0; i-- {
+				l = append(l, randVal(c, 1))
 			}
 			if c.R.Pct(40) {
-				nv = ci(int64(c.R.Intn(20)))
+				if t, ok := twin(c, v); ok && c.R.Bool() {
+					l = append(l, t)
+				} else {
+					l = append(l, v)
+				}
+			}
+			a = attempt{kind: "FL", name: n, l: l}
+		case k < 93:
+			nv := randVal(c, 2)
+			if c.R.Pct(25) {
+				nv = v
+			} else if c.R.Pct(35) {
+				if t, ok := twin(c, v); ok {
+					nv = t
+				}
+			} else if c.R.Pct(40) {
+				nv = vi(int64(c.R.Intn(20)))
 			}
 			a = attempt{kind: "CL", name: n, v: nv}
 		default:
-			a = attempt{kind: "RD", name: n}
+			a = rd(n)
 		}
 		evs = append(evs, event{sc, a})
 	}
 	c19Seq(c, names, evs)
 }
 
+// an index / key aimed at v: mostly one it has
+func randIndex(c *Ctx, v val) val {
+	switch v.kind {
+	case 'a':
+		n := len(v.els)
+		if n > 0 && c.R.Pct(75) {
+			i := int64(c.R.Intn(n))
+			if c.R.Pct(20) {
+				i -= int64(n)
+			}
+			return vi(i)
+		}
+		if c.R.Pct(10) {
+			return vf(4)
+		}
+		return vi(int64(n + c.R.Intn(3)))
+	case 'm':
+		if len(v.keys) > 0 && c.R.Pct(70) {
+			return v.keys[c.R.Intn(len(v.keys))]
+		}
+	}
+	if c.R.Pct(15) {
+		return vs([]string{"a", "b", "q"}[c.R.Intn(3)])
+	}
+	if c.R.Pct(15) {
+		return vf(int64(c.R.Intn(12)) * 4)
+	}
+	return vi(int64(c.R.Intn(16)))
+}
+
 func runC19(c *Ctx) {
 	log.SetLogLevelQuiet(log.Critical)
 	_ = extensions.Init(nil) // defines the identifier nil (and PI, E: not used as names here)
-	c.Rule = "sequences of mutation attempts (= := ++ -- index assignment, del of an element, loop variable over a range and over a list, " +
-		"parameter name, explicit del) at top level, inside a function, two functions deep and inside a loop, on constants holding int, float, " +
-		"string, bool, nil, arrays (0..12 elements) and maps (0..7 pairs), each run with registers on and off. " +
-		"non-trivial = distinct sequences with at least one non-read attempt on a constant-named identifier after its binding"
+	c.Rule = "sequences of mutation attempts (= := with a literal, the identical value, an ==-equal but not identical value (int/float in elements, " +
+		"values and keys at any depth, 0.0/-0.0), or an alias-making expression; ++ -- ; index assignment; del of an element; loop variable over a " +
+		"range and over a list; parameter name; explicit del; writes through aliases made by assignment, slice, container, return value, parameter, " +
+		"append) at top level, inside a function, two functions deep and inside a loop, on constants holding int, float, string, bool, nil, arrays " +
+		"(0..12 elements) and maps (0..7 pairs), each run with registers on and off. " +
+		"non-trivial = distinct sequences with at least one non-read attempt after the first binding"
 	if c.ReplayCase != "" {
 		f := strings.Fields(c.ReplayCase)
 		if len(f) == 5 && f[0] == "CST" {
